@@ -82,3 +82,13 @@ package core
 //@
 //@ func (*socket).remPipe$1
 //@   before call:Free#1 assert true
+//@
+//@ func (*socket).SetOption
+//@   ghost perr = result at call:SetOption#1
+//@   ensures perr != mangos.ErrBadOption ==> result == perr
+//@   ensures perr == mangos.ErrBadOption && name == mangos.OptionMaxRecvSize ==> (isnil(result) <==> is_int(value) && int_of(value) >= 0)
+//@   ensures perr == mangos.ErrBadOption && name == mangos.OptionReconnectTime ==> (isnil(result) <==> is_duration(value))
+//@   ensures perr == mangos.ErrBadOption && name == mangos.OptionMaxReconnectTime ==> (isnil(result) <==> is_duration(value))
+//@   ensures perr == mangos.ErrBadOption && name == mangos.OptionDialAsynch ==> (isnil(result) <==> is_bool(value))
+//@   ensures perr == mangos.ErrBadOption && (name == mangos.OptionMaxRecvSize || name == mangos.OptionReconnectTime || name == mangos.OptionMaxReconnectTime || name == mangos.OptionDialAsynch) && !isnil(result) ==> result == mangos.ErrBadValue
+//@   ensures perr == mangos.ErrBadOption && name != mangos.OptionMaxRecvSize && name != mangos.OptionReconnectTime && name != mangos.OptionMaxReconnectTime && name != mangos.OptionDialAsynch ==> result == mangos.ErrBadOption
